@@ -58,6 +58,73 @@ theorem iter_add {σ : Type} (h : Handler σ) (n m : Nat) (w : World σ) :
     | ok w' => simp only [ih w']
     | error f => rfl
 
+/-! ### the same for a global step that changes from step to step (per-simulant clocks) -/
+
+/-- shape facts read from interface/interactive.py on this run: `run_until` loops `while time < end`,
+`take_steps` forwards its `step_size` argument unchanged, `step` restores the old size only when one was given -/
+theorem gen_interactive_tables :
+    Viv.Gen.runUntilLoopCmp = "Lt" ∧ Viv.Gen.takeStepsForwardsStepSize = true ∧
+    Viv.Gen.interactiveStepRestoresOnlyWhenGiven = true := by decide
+
+/-- `take_steps(n)` without a step size is `n` engine steps, whatever the step function does to the global step -/
+theorem takeSteps_none_eq_iter {W : Type} (S : VSys W) (n : Nat) (w : W) :
+    S.takeSteps none n w = S.iter n w := by
+  induction n generalizing w with
+  | zero => rfl
+  | succ n ih => simp only [VSys.takeSteps, VSys.istep, VSys.iter]; exact ih _
+
+/-- `run()` is the engine step iterated as many times as it itself counts – for ANY step function -/
+theorem vrun_eq_iter {W : Type} (S : VSys W) (stop : Int) (fuel : Nat) (w : W) :
+    (S.run stop fuel w).2 = S.iter (S.run stop fuel w).1 w := by
+  induction fuel generalizing w with
+  | zero => rfl
+  | succ n ih =>
+    simp only [VSys.run]
+    split
+    · simp only [VSys.iter]; exact ih _
+    · rfl
+
+/-- `InteractiveContext.run_until(stop)` (hence `InteractiveContext.run()`) and `SimulationContext.run()` take the
+same number of steps and reach the same world, for ANY step function – in particular when per-simulant clocks
+change the global step during the run -/
+theorem run_until_eq_run {W : Type} (S : VSys W) (stop : Int) (fuel : Nat) (w : W) :
+    S.runUntil stop fuel w = S.run stop fuel w := by
+  induction fuel generalizing w with
+  | zero => rfl
+  | succ n ih =>
+    simp only [VSys.runUntil, VSys.run, VSys.takeSteps, VSys.istep]
+    split
+    · rw [ih]
+    · rfl
+
+/-- every step the run takes starts before the stop time, and the run ends at or after it (when fuel suffices):
+no step is taken once the clock has reached the end, however the step size varies -/
+theorem vrun_stops_at_end {W : Type} (S : VSys W) (stop : Int) (fuel : Nat) (w : W)
+    (h : (S.run stop fuel w).1 < fuel) : stop ≤ S.time (S.run stop fuel w).2 := by
+  induction fuel generalizing w with
+  | zero => omega
+  | succ n ih =>
+    simp only [VSys.run] at h ⊢
+    split
+    · rename_i hlt
+      simp only [hlt, if_true] at h
+      exact ih _ (by omega)
+    · rename_i hge; simp only at hge ⊢; omega
+
+/-- a clock whose global step is 1 at time 0 and 3 afterwards -/
+def varying : VSys (Int × Int) :=
+  { step := fun w => (w.1 + w.2, 3), time := fun w => w.1, getStep := fun w => w.2, setStep := fun h w => (w.1, h) }
+
+/-- witness for the repaired defect F21: a precomputed step count overshoots the end when the global step grows
+(`run()` stops at time 4 after 2 steps; `take_steps(ceil(4/1))` runs on to time 10) -/
+theorem precomputed_count_overshoots :
+    (varying.run 4 100 (0, 1)).2 = (4, 3) ∧ varying.runUntilPrecomputed 4 (0, 1) = (10, 3) := by decide
+
+/-- witness for the stepping-API channel: `take_steps` called with the CURRENT step size (instead of none)
+freezes the global step – the world differs from `n` engine steps as soon as the step changes -/
+theorem explicit_current_step_freezes :
+    varying.takeSteps (some (varying.getStep (0, 1))) 2 (0, 1) = (2, 1) ∧ varying.iter 2 (0, 1) = (4, 3) := by decide
+
 /-! ### the process-global context counter enters the name only -/
 
 theorem stepW_name {σ : Type} (h : Handler σ) (w : World σ) (x : String) :
